@@ -78,7 +78,15 @@ func (rt *runtime) cmplEvaluateNodeStatement(node nodeStatement) Value {
 				rt.labels = nil
 			}
 		}()
-		return rt.cmplEvaluateNodeStatement(node.statement)
+		value := rt.cmplEvaluateNodeStatement(node.statement)
+		if value.kind == valueResult {
+			// A break targeting this label completes the labelled statement
+			// normally, whatever kind of statement the label is attached to.
+			if value.evaluateBreak([]string{node.label}) == resultBreak {
+				return emptyValue
+			}
+		}
+		return value
 
 	case *nodeReturnStatement:
 		if node.argument != nil {
